@@ -1,4 +1,5 @@
 //! What the oracles see of one successfully executed operation.
+use chewing::conversion::Interval;
 use chewing::editor::keyboard::KeyEvent;
 
 pub struct Step<'a> {
@@ -30,6 +31,16 @@ pub struct Step<'a> {
     pub no_word_post: Option<&'a str>,
     /// C01: the first read-only accessor that panicked / hung on the post-state: (name, "panic" | "hang")
     pub getter_fail: Option<(&'a str, &'a str)>,
+    /// `display()` immediately before / after the operation (`None` = the getter panicked)
+    pub display_pre: Option<&'a str>,
+    pub display_post: Option<&'a str>,
+    /// `len()` (symbols in the pre-edit) before / after
+    pub len_pre: usize,
+    pub len_post: usize,
+    /// `display_commit()` after the operation
+    pub commit_post: &'a str,
+    /// every conversion call made DURING the operation: (engine kind, composition asked about, all alternatives)
+    pub conv: &'a [(u8, String, Vec<Vec<Interval>>)],
 }
 
 impl Step<'_> {
